@@ -76,9 +76,44 @@ fn sink_run(cap: &str, f: impl Fn(&mut dyn std::io::Write) -> std::io::Result<us
     })
 }
 
+use fastcgi_server::parser::{self, request, stream};
+
+pub enum Cur {
+    None,
+    Req(request::Parser<'static>),
+    Str(stream::Parser<'static>),
+}
+impl Default for Cur { fn default() -> Self { Cur::None } }
+
 #[derive(Default)]
 pub struct Impl {
-    pub _unused: (),
+    pub cur: Cur,
+}
+
+pub fn perr(e: &parser::Error) -> String {
+    use parser::Error::*;
+    match e {
+        Paniced => "paniced".into(), StuckOnInput => "stuck".into(), Interrupted => "interrupted".into(),
+        UnknownVersion(v) => format!("version:{v}"), InvalidRequestLen(n) => format!("reqlen:{n}"),
+        NullRequest => "nullreq".into(), AbortRequest => "abort".into(), Protocol(_) => "protocol".into(),
+        _ => "other".into(),
+    }
+}
+pub fn env_str(r: &parser::Request) -> String {
+    let mut items: Vec<String> = r.env_iter().map(|(k, v)| format!("{}:{}", hexd(k.as_ref().as_bytes()), hexd(v))).collect();
+    if items.is_empty() { return "-".into(); }
+    items.sort();
+    items.join(",")
+}
+pub fn req_str(r: &parser::Request) -> String {
+    format!("id={} role={} flags={} env={}", r.request_id, u16::from(r.role), u8::from(r.flags), env_str(r))
+}
+fn into_request_str(p: request::Parser<'static>) -> String {
+    match p.into_request() { Ok((r, left)) => format!("ok {} left={}", req_str(&r), hexd(&left)), Err(e) => format!("err {}", perr(&e)) }
+}
+fn opt_stream(s: Option<fcgi::RecordType>) -> String { s.map_or("none".into(), |t| u8::from(t).to_string()) }
+fn str_state(p: &mut stream::Parser<'static>) -> String {
+    format!("buf={} outbuf={} free={} boundary={} active={}", hexd(p.stream_buffer()), hexd(p.output_buffer()), p.input_buffer().len(), p.is_record_boundary(), opt_stream(p.active_stream()))
 }
 
 fn pairs_str(ps: &[(Vec<u8>, Vec<u8>)]) -> String {
@@ -95,12 +130,75 @@ impl Impl {
         match catch(|| self.exec_inner(&a)) {
             Ok(Some(s)) => s,
             Ok(None) => "bad-op".into(),
-            Err(p) => format!("panic {}", p.replace('\n', " ")),
+            Err(_) => "panic".into(),
         }
     }
 
     fn exec_inner(&mut self, a: &[&str]) -> Option<String> {
         Some(match a {
+            ["req.new", b, mc] => {
+                let cfg: &'static Config = Box::leak(Box::new(config(b.parse().ok()?, mc.parse().ok()?)));
+                let mut p = request::Parser::new(cfg);
+                let f = p.input_buffer().len();
+                self.cur = Cur::Req(p);
+                format!("free={f}")
+            }
+            ["req.feed", h] => {
+                let bs = unhex(h);
+                let Cur::Req(p) = &mut self.cur else { return Some("no-parser".into()) };
+                let buf = p.input_buffer();
+                if bs.len() <= buf.len() { buf[..bs.len()].copy_from_slice(&bs); }
+                let y = p.parse(bs.len());
+                let (done, out) = (y.done, hexd(y.output));
+                format!("done={done} out={out} free={}", p.input_buffer().len())
+            }
+            ["req.peek"] => { let Cur::Req(p) = &self.cur else { return Some("no-parser".into()) }; into_request_str(p.clone()) }
+            ["req.into_request"] => { let Cur::Req(p) = std::mem::take(&mut self.cur) else { return Some("no-parser".into()) }; into_request_str(p) }
+            ["req.into_stream"] => {
+                let Cur::Req(p) = std::mem::take(&mut self.cur) else { return Some("no-parser".into()) };
+                match p.into_stream_parser() {
+                    Ok(mut sp) => { let o = format!("ok {} {}", req_str(&sp.request), str_state(&mut sp)); self.cur = Cur::Str(sp); o }
+                    Err(e) => format!("err {}", perr(&e)),
+                }
+            }
+            ["str.parse", h, d] => {
+                let bs = unhex(h);
+                let Cur::Str(p) = &mut self.cur else { return Some("no-parser".into()) };
+                let buf = p.input_buffer();
+                if bs.len() <= buf.len() { buf[..bs.len()].copy_from_slice(&bs); }
+                let mut dest: Option<Vec<u8>> = if *d == "none" { None } else { Some(vec![0u8; d.parse().ok()?]) };
+                let r = p.parse(bs.len(), dest.as_deref_mut());
+                match r {
+                    Ok(st) => {
+                        let data = match &dest { Some(b) => hexd(&b[..st.stream.min(b.len())]), None => "-".into() };
+                        format!("ok stream={} end={} out={} data={} {}", st.stream, st.stream_end, st.output, data, str_state(p))
+                    }
+                    Err(e) => format!("err {} {}", perr(&e), str_state(p)),
+                }
+            }
+            ["str.consume", k] => { let Cur::Str(p) = &mut self.cur else { return Some("no-parser".into()) }; p.consume_stream(k.parse().ok()?); str_state(p) }
+            ["str.compress"] => { let Cur::Str(p) = &mut self.cur else { return Some("no-parser".into()) }; p.compress(); str_state(p) }
+            ["str.consume_output", k] => { let Cur::Str(p) = &mut self.cur else { return Some("no-parser".into()) }; p.consume_output(k.parse().ok()?); str_state(p) }
+            ["str.set_stream", sv] => {
+                let Cur::Str(p) = &mut self.cur else { return Some("no-parser".into()) };
+                let st = if *sv == "none" { None } else { Some(fcgi::RecordType::try_from(sv.parse::<u8>().ok()?).ok()?) };
+                match catch(|| p.set_stream(st)) {
+                    Ok(Ok(())) => format!("ok {}", str_state(p)),
+                    Ok(Err(_)) => format!("rejected {}", str_state(p)),
+                    Err(_) => format!("panic {}", str_state(p)),
+                }
+            }
+            ["str.peek_input"] => { let Cur::Str(p) = &self.cur else { return Some("no-parser".into()) };
+                match p.clone().into_input() { Ok(b) => format!("ok {}", hexd(&b)), Err(e) => format!("err {}", perr(&e)) } }
+            ["str.into_input"] => { let Cur::Str(p) = std::mem::take(&mut self.cur) else { return Some("no-parser".into()) };
+                match p.into_input() { Ok(b) => format!("ok {}", hexd(&b)), Err(e) => format!("err {}", perr(&e)) } }
+            ["str.into_req"] => {
+                let Cur::Str(p) = std::mem::take(&mut self.cur) else { return Some("no-parser".into()) };
+                match p.into_request_parser() {
+                    Ok(mut rp) => { let f = rp.input_buffer().len(); self.cur = Cur::Req(rp); format!("ok free={f}") }
+                    Err(e) => format!("err {}", perr(&e)),
+                }
+            }
             ["vi.dec", h] => {
                 let bs = unhex(h);
                 let mut cur = &bs[..];
